@@ -49,11 +49,11 @@ ASSUMPTIONS = ["labels and predictions are 0/1 with pos_label at its default; gr
 RULE = ("cases: (enum) one block per (n, assignment of rows to groups up to renaming, weight mode, part) holding every "
         "(y_true, y_pred) in {0,1}^n x {0,1}^n, unweighted or with every weight vector over {1,2,3} (quick, n = 3 "
         "weighted: every data set is visited but each with 3 of the 6 named functions + 1 other in rotation; "
-        "thorough: all functions); (rand) one random "
+        "thorough: all 16 variants of the named functions + 6 of the 30 generated calls in rotation); (rand) one random "
         "data set n <= 12, 1..4 groups, dyadic weights, with all functions, one dispatcher variant and the generated "
         "functions without a model against a harness-built MetricFrame; non-trivial = the case holds a data set with "
         ">= 2 groups whose selection rates or true positive rates differ")
-EXHAUSTIVE = {"quick": True, "thorough": True}
+EXHAUSTIVE = {"quick": False, "thorough": True}
 
 # ---------------------------------------------------------------------------------------------
 # model value order (Fairness.run_one)
@@ -123,6 +123,10 @@ def _calls_for(profile, k):
         return FULL
     if profile == "all":
         return NAMED + FULL
+    if profile == "wide":
+        # every variant of the six named functions + six of the 30 generated calls in rotation
+        gen = FULL[16:]
+        return FULL[:16] + [gen[(6 * k + j) % len(gen)] for j in range(6)]
     # "named": three of the six named functions with their defaults (alternating halves) + one of the
     # others in rotation
     return NAMED[(k % 2)::2] + [FULL[k % len(FULL)]]
@@ -216,12 +220,14 @@ def cases(tier, seed):
             ng = max(assign) + 1
             perms = list(itertools.permutations(range(3), ng))
             perm = list(Rng(seed, PID, "permw", n, ai).choice(perms))
-            profile = "full" if (tier == "thorough" or n <= 2) else "named"
-            psize = {1: 4, 2: 8, 3: (16 if profile == "named" else 2)}[n]
+            profile = "full" if n <= 2 else ("wide" if tier == "thorough" else "named")
+            psize = {1: 4, 2: 8, 3: (16 if profile == "named" else 4)}[n]
             for part in range((4 ** n + psize - 1) // psize):
+                if tier == "quick" and n == 3 and part % 4 != ai % 4:
+                    continue      # quick: a quarter of the weighted n = 3 blocks (all of them in thorough)
                 wtd.append({"kind": "enum", "n": n, "assign": assign, "perm": perm, "weights": "all123", "part": part,
                             "psize": psize, "profile": profile})
-    rnd = [_rand_case(Rng(seed, PID, "rand", i), i) for i in range({"quick": 300, "thorough": 3000}[tier])]
+    rnd = [_rand_case(Rng(seed, PID, "rand", i), i) for i in range({"quick": 200, "thorough": 3000}[tier])]
     # order: small exhaustive blocks, random data sets, then the big blocks (the search that follows a broken
     # obligation takes the first SEARCH_CAP cases of the thorough list)
     small = [c for c in unw if c["n"] <= 3]
